@@ -203,11 +203,15 @@ def render_replay_main(defs: List[Def]) -> str:
     arms = []
     for d in defs:
         conv = 'std::str::from_utf8(data).expect("valid utf8")' if d.utf8 else 'data'
-        arms.append(f'        "{d.id}" => run::<corpus::{d.id}::Tok>({conv}, partial),')
+        arms.append(f'        "{d.id}" => run::<corpus::{d.id}::Tok>({conv}, partial, start),')
     return '''use logos::{Lexer, Logos};
-fn run<'s, T: Logos<'s> + std::fmt::Debug>(src: &'s T::Source, partial: bool) where T::Extras: Default, T::Error: std::fmt::Debug {
+fn run<'s, T: Logos<'s> + std::fmt::Debug>(src: &'s T::Source, partial: bool, start: usize) where T::Extras: Default, T::Error: std::fmt::Debug {
     let mut lex: Lexer<'s, T> = if partial { Lexer::new_partial(src) } else { Lexer::new(src) };
+    if start > 0 { lex.bump(start); }
+    let mut n = 0;
     loop {
+        n += 1;
+        if n > 10000 { println!("TOOMANY"); break; }
         let item = lex.next();
         let sp = lex.span();
         match item {
@@ -222,6 +226,7 @@ fn main() {
     let data: Vec<u8> = (0..a[2].len() / 2).map(|i| u8::from_str_radix(&a[2][2 * i..2 * i + 2], 16).unwrap()).collect();
     let data: &'static [u8] = Box::leak(data.into_boxed_slice());
     let partial = a.len() > 3 && a[3] == "partial";
+    let start: usize = if a.len() > 4 { a[4].parse().unwrap() } else { 0 };
     match a[1].as_str() {
 ''' + '\n'.join(arms) + '''
         other => panic!("unknown definition {other}"),
